@@ -89,10 +89,9 @@ Definition allow_ambient_gp : list (string * eff) := [
 
 (* ordered consumption of a set: the sites below consume sets whose elements hash independently of
    PYTHONHASHSEED (int / float / tuples of float) or whose order cannot reach a suggestion or decision *)
-Definition allow_hash_common : list (string * eff) := [
-  (* `for key in mandatory: assert key in options`: only selects which assertion message is raised *)
-  ("syne_tune.optimizer.schedulers.searchers.utils.default_arguments.check_and_merge_defaults/1 for-loop over a set", HashOrderIter)
-].
+(* loops over a set whose body only asserts / logs are classified by the translator itself (category "assert-only",
+   counted as hash_order_loops_assert_only in the evidence) and are not sites at all: nothing is allow-listed here *)
+Definition allow_hash_common : list (string * eff) := [].
 Definition allow_hash_stochastic : list (string * eff) :=
   (* `for pos in self._rc_returned_pos`: set of int positions (hash(int) is not randomised) *)
   ("syne_tune.optimizer.schedulers.searchers.searcher_base.StochasticAndFilterDuplicatesSearcher.get_config/1 for-loop over a set left early", HashOrderIter)
@@ -110,8 +109,6 @@ Definition allow_hash_grid : list (string * eff) :=
   ("syne_tune.optimizer.schedulers.searchers.random_grid_searcher.GridSearcher._generate_all_candidates_on_grid/1 set passed to list", HashOrderIter)
   :: allow_hash_common.
 Definition allow_hash_gp : list (string * eff) := [
-  (* set of trial-id strings, only used for `assert trial_id in config_for_trial` *)
-  ("syne_tune.optimizer.schedulers.searchers.bayesopt.datatypes.tuning_job_state.TuningJobState._check_trial_ids/1 for-loop over a set", HashOrderIter);
   (* list of configs in set order of trial-id STRINGS; its only consumer ExclusionListFromState turns it into a
      set of match strings (order-free).  Hash-seed dependent order, harmless consumer: fresh-process twins under
      different PYTHONHASHSEED in the driver validate this *)
@@ -122,8 +119,7 @@ Definition allow_hash_gp : list (string * eff) := [
   ("syne_tune.optimizer.schedulers.searchers.bayesopt.gpautograd.kernel.freeze_thaw.FreezeThawKernelFunction.forward/2 order-truncating: zip ; set passed to zip", HashOrderIter);
   (* tuple({"acq_func"}): singleton *)
   ("syne_tune.optimizer.schedulers.searchers.gp_searcher_factory._common_defaults/1 set passed to tuple", HashOrderIter);
-  ("syne_tune.optimizer.schedulers.searchers.searcher_base.StochasticAndFilterDuplicatesSearcher.get_config/1 for-loop over a set left early", HashOrderIter);
-  ("syne_tune.optimizer.schedulers.searchers.utils.default_arguments.check_and_merge_defaults/1 for-loop over a set", HashOrderIter)
+  ("syne_tune.optimizer.schedulers.searchers.searcher_base.StochasticAndFilterDuplicatesSearcher.get_config/1 for-loop over a set left early", HashOrderIter)
 ].
 
 (* the exception the property itself grants: process-global block-name counters of the GP parameter blocks *)
@@ -341,8 +337,7 @@ Definition allow_hash_sim : list (string * eff) := [
   ("syne_tune.backend.local_backend.LocalBackend._get_busy_trial_ids/1 for-loop over a set", HashOrderIter);               (* int trial ids *)
   ("syne_tune.backend.simulator_backend.simulator_backend.SimulatorBackend.busy_trial_ids/1 comprehension over a set", HashOrderIter);  (* int trial ids *)
   ("syne_tune.tuner.Tuner._process_new_results/1 set passed to list", HashOrderIter);                                      (* int trial ids *)
-  ("syne_tune.optimizer.schedulers.searchers.searcher_base.StochasticAndFilterDuplicatesSearcher.get_config/1 for-loop over a set left early", HashOrderIter);
-  ("syne_tune.optimizer.schedulers.searchers.utils.default_arguments.check_and_merge_defaults/1 for-loop over a set", HashOrderIter)
+  ("syne_tune.optimizer.schedulers.searchers.searcher_base.StochasticAndFilterDuplicatesSearcher.get_config/1 for-loop over a set left early", HashOrderIter)
 ].
 
 Theorem c11_sim_experiment_no_ambient_rng :
